@@ -215,12 +215,13 @@ func uint64Edge(r *kit.Rng) uint64 {
 
 // ResultOpts selects the domain of a generated result.
 type ResultOpts struct {
-	Text         TextOpts
-	MaxBody      int
-	MaxKeys      int  // header keys (0 = no limit)
-	Zone         bool // timestamps may carry a fixed zone with whole-minute offset (JSON, gob)
-	NoZoneMinus1 bool // never the offset of -1 minute (Time.MarshalBinary, hence gob, reserves it for UTC and fails)
-	Loc          *time.Location
+	Text           TextOpts
+	MaxBody        int
+	MaxKeys        int  // header keys (0 = no limit)
+	Zone           bool // timestamps may carry a fixed zone with whole-minute offset (JSON, gob)
+	ZoneOddSeconds bool // zones may have an offset that is not a whole minute (gob: MarshalBinary version 2)
+	NoZoneMinus1   bool // never the offset of -1 minute (Time.MarshalBinary, hence gob, reserves it for UTC and fails)
+	Loc            *time.Location
 }
 
 // Result generates one result over the full quantifier of C07.
@@ -240,7 +241,17 @@ func Result(r *kit.Rng, o ResultOpts) vegeta.Result {
 		if min == -1 && o.NoZoneMinus1 {
 			min = -2
 		}
-		loc = time.FixedZone("", min*60)
+		sec := min * 60
+		if o.ZoneOddSeconds && r.Chance(0.3) {
+			sec += int(r.Range(-59, 59))
+			if sec/60 == -1 {
+				sec -= 120
+			}
+		}
+		if o.ZoneOddSeconds && r.Chance(0.1) {
+			sec = 0 // a non-UTC location with offset 0
+		}
+		loc = time.FixedZone("", sec)
 	}
 	ts := time.Unix(0, TimestampNs(r)).In(loc)
 	code := uint16(uint64Edge(r))
